@@ -344,7 +344,10 @@ def _pick(tab, seed, n, D, shift=0):
 
 
 def linear_values(cls: str, D: int, pm: str, groups: int, seed: int, order: Optional[str] = None):
-    """Setter values for an elementary linear model: dict(name -> list[groups][k]); pm in default|small|large."""
+    """Setter values for an elementary linear model: dict(name -> list[groups][k]); pm in default|small|large
+    ("const", the constant-field entry of the dense menu, selects the small table for linear members of a composite)."""
+    if pm == "const":
+        pm = "small"
     out = []
     for n in range(groups):
         sh = n  # second group gets the next table row
